@@ -54,6 +54,9 @@ const (
 	c18ResMemberENI = "aliyun/member-eni"
 
 	c18KnownNoVSwitch = "C18-nondefault-iface-no-vswitch"
+	// two requested definitions without a common zone + fixed IP + a recorded previous
+	// zone: the only requirement emitted is "previous zone"
+	c18KnownDisjointPrevPin = "C18-disjoint-zones-prev-pin"
 )
 
 var c18LogOnce sync.Once
@@ -660,6 +663,10 @@ func c18Run(c *vt.Ctx, s c18Scenario) {
 		}
 	}
 
+	// zonesFromDefinitions: the pod's networks come from PodNetworking definitions, whose
+	// status tells the webhook the zone of every vSwitch (on the other paths the webhook
+	// only sees bare vSwitch ids)
+	zonesFromDefinitions := false
 	switch {
 	case malformed:
 		c.Label("path:malformed-annotation")
@@ -667,8 +674,10 @@ func c18Run(c *vt.Ctx, s c18Scenario) {
 		c.Label("path:pod-networks")
 	case explicitReqs > 0:
 		c.Label("path:pod-networks-request")
+		zonesFromDefinitions = true
 	case len(eligible) > 0:
 		c.Label("path:selector-match")
+		zonesFromDefinitions = true
 		// a pod that is selected by a ready definition is owned by the webhook
 		if !marked {
 			c.Fatalf("pod matches PodNetworking %v (harness evaluation of the selectors) but was not marked: allowed=%v msg=%q",
@@ -840,6 +849,96 @@ func c18Run(c *vt.Ctx, s c18Scenario) {
 	if n >= 2 && len(added) > 0 {
 		c.Label("affinity:multi-network")
 	}
+
+	// ... and the affinity as the scheduler evaluates it (terms ORed, the match
+	// expressions of a term ANDed) must not admit a zone in which some requested network
+	// has no vSwitch. Checked whenever the webhook emitted a zone requirement for networks
+	// that come from PodNetworking definitions. This is what separates "previous zone AND
+	// vSwitch zones" (two expressions) from "previous zone OR vSwitch zones" (one).
+	if len(added) > 0 && zonesFromDefinitions && allowedZones != nil {
+		admitted := c18AdmittedZones(final)
+		var bad []string
+		for _, z := range admitted {
+			if !allowedZones[z] {
+				bad = append(bad, z)
+			}
+		}
+		if prevZone != "" && hasFixed {
+			inside := allowedZones[prevZone]
+			c.Labelf("affinity:previous-zone-inside-vswitch-zones=%v", inside)
+		}
+		if len(bad) > 0 {
+			var az []string
+			for k := range allowedZones {
+				az = append(az, k)
+			}
+			sort.Strings(az)
+			if len(allowedZones) == 0 && vt.Known(c18KnownDisjointPrevPin) &&
+				hasFixed && prevZone != "" && len(bad) == 1 && bad[0] == prevZone {
+				c.Label("known:" + c18KnownDisjointPrevPin)
+			} else {
+				aff, _ := json.Marshal(final.Spec.Affinity)
+				c.Fatalf("the emitted node affinity admits zones %v, but the zones in which every requested network has a vSwitch are %v (previous zone %q)\naffinity: %s\nnetworks: %s",
+					bad, az, prevZone, aff, final.Annotations[c18AnnoNets])
+			}
+		}
+	}
+}
+
+// c18ZoneUniverse: every zone name the harness ever uses (vSwitch zones z0..z3, previous
+// zones z0..z4, the user's own affinity z0/z9).
+var c18ZoneUniverse = []string{"z0", "z1", "z2", "z3", "z4", "z9"}
+
+// c18AdmittedZones evaluates the pod's required node affinity the way the scheduler
+// does, restricted to the zone label: a node in zone z passes if at least one selector
+// term passes, and a term passes if all of its zone-key match expressions do
+// (expressions on other keys are about other node labels and are taken as satisfiable).
+// No required node affinity admits every zone.
+func c18AdmittedZones(p *corev1.Pod) []string {
+	if p.Spec.Affinity == nil || p.Spec.Affinity.NodeAffinity == nil ||
+		p.Spec.Affinity.NodeAffinity.RequiredDuringSchedulingIgnoredDuringExecution == nil {
+		return append([]string(nil), c18ZoneUniverse...)
+	}
+	terms := p.Spec.Affinity.NodeAffinity.RequiredDuringSchedulingIgnoredDuringExecution.NodeSelectorTerms
+	has := func(vals []string, v string) bool {
+		for _, x := range vals {
+			if x == v {
+				return true
+			}
+		}
+		return false
+	}
+	var out []string
+	for _, z := range c18ZoneUniverse {
+		ok := false
+		for _, t := range terms {
+			// a term without any requirement matches nothing
+			if len(t.MatchExpressions) == 0 && len(t.MatchFields) == 0 {
+				continue
+			}
+			pass := true
+			for _, e := range t.MatchExpressions {
+				if e.Key != c18ZoneKey {
+					continue
+				}
+				switch e.Operator {
+				case corev1.NodeSelectorOpIn:
+					pass = pass && has(e.Values, z)
+				case corev1.NodeSelectorOpNotIn:
+					pass = pass && !has(e.Values, z)
+				case corev1.NodeSelectorOpDoesNotExist:
+					pass = false
+				}
+			}
+			if pass {
+				ok = true
+			}
+		}
+		if ok {
+			out = append(out, z)
+		}
+	}
+	return out
 }
 
 // c18AddedZoneValues returns the values of the zone-key match expressions present in
@@ -939,6 +1038,73 @@ func TestVerifC18KnownWitnessNoVSwitch(t *testing.T) {
 	}()
 	if admittedIncomplete {
 		vt.KnownFindingLine("C18", "pod with a user-supplied network on a non-eth0 interface and no vSwitchOptions is marked pod-eni=true and admitted with that entry still lacking vSwitches (defaults are filled for eth0 only)")
+	}
+}
+
+// Deterministic witness for the open finding C18-disjoint-zones-prev-pin: a stable-name
+// pod requests two definitions by name, pn0 (Elastic, only vSwitch in z0) and pn1 (Fixed,
+// only vSwitch in z2), and a PodENI of an earlier incarnation records zone z0. No zone
+// has a vSwitch of both networks; the empty intersection is dropped as "no requirement"
+// and the only requirement emitted is "zone In [z0]", a zone in which pn1 has no vSwitch.
+func TestVerifC18KnownWitnessDisjointPrevPin(t *testing.T) {
+	if !vt.Known(c18KnownDisjointPrevPin) {
+		t.Skip("finding not listed as open")
+	}
+	pinned := false
+	func() {
+		defer func() { _ = recover() }()
+		c18LogOnce.Do(func() { ctrl.SetLogger(logr.Discard()) })
+		cfg := &controlplane.Config{EnableTrunk: ptr.To(false), EnableWebhookInjectResource: ptr.To(false)}
+		controlplane.SetConfig(cfg)
+		defer controlplane.SetConfig(nil)
+		mk := func(i int, zone int, fixed bool) *v1beta1.PodNetworking {
+			pn := c18BuildPN(i, c18PN{Fixed: fixed, VSw: []c18VSw{{Zone: zone}}, SGs: 1})
+			pn.Status.Status = v1beta1.NetworkingStatusReady
+			pn.Status.VSwitches = []v1beta1.VSwitch{{ID: c18VSw{Zone: zone}.id(), Zone: fmt.Sprintf("z%d", zone)}}
+			return pn
+		}
+		s := c18Scenario{
+			Namespaces: []c18NS{{}},
+			PNs:        []c18PN{{}, {}},
+			Pod: c18Pod{Name: "web-0", Containers: []c18Container{{}}, HasReq: true,
+				Reqs: []c18Req{{PN: 0, Iface: "eth1"}, {PN: 1, Iface: "eth0"}}},
+		}
+		pod := c18BuildPod(s)
+		cl := fake.NewClientBuilder().WithScheme(types.Scheme).WithObjects(
+			c18EniConfigMap(c18EniConf{VSw: []c18VSw{{Zone: 0}}, SGs: 1}),
+			&corev1.Namespace{ObjectMeta: metav1.ObjectMeta{Name: "ns0"}},
+			mk(0, 0, false), mk(1, 2, true),
+			&v1beta1.PodENI{ObjectMeta: metav1.ObjectMeta{Namespace: "ns0", Name: "web-0"},
+				Spec: v1beta1.PodENISpec{Zone: "z0", Allocations: []v1beta1.Allocation{{IPv4: "10.0.0.10", Interface: "eth0"}}}},
+		).Build()
+		raw, _ := json.Marshal(pod)
+		resp := MutatingHook(cl, cfg).Handle(context.Background(), c18Request("Pod", pod.Namespace, pod.Name, raw))
+		if !resp.Allowed || len(resp.Patch) == 0 {
+			return
+		}
+		pt, err := evpatch.DecodePatch(resp.Patch)
+		if err != nil {
+			return
+		}
+		outRaw, err := pt.Apply(raw)
+		if err != nil {
+			return
+		}
+		final := &corev1.Pod{}
+		if json.Unmarshal(outRaw, final) != nil || final.Annotations[c18AnnoPodENI] != "true" {
+			return
+		}
+		if len(c18AddedZoneValues(pod, final)) == 0 {
+			return
+		}
+		for _, z := range c18AdmittedZones(final) {
+			if z == "z0" {
+				pinned = true // pn1 has no vSwitch in z0
+			}
+		}
+	}()
+	if pinned {
+		vt.KnownFindingLine("C18", "pod requesting two PodNetworkings without a common vSwitch zone (one of them Fixed) whose earlier PodENI records a zone is admitted with the single node-affinity requirement 'zone In [previous zone]', a zone in which one of the requested networks has no vSwitch (an empty zone intersection is treated as no requirement)")
 	}
 }
 
